@@ -70,6 +70,23 @@ Theorem C01_cogen_split : forall c : lc_in,
 Proof. exact cogen_split. Qed.
 Print Assumptions C01_cogen_split.
 
+(* what the "breakeven price" is: selling each year's energy at the levelized cost recovers, in present value, exactly the
+   (construction-inflated) capital cost plus the discounted O&M - standard model; annualised for the FCR model *)
+Theorem C01_breakeven_std : forall c : lc_in, l_econ c = 2%Z -> classify (l_enduse c) (l_plant c) = LElec ->
+  ~ geo0 (/ (1 + l_disc c)) (l_net c) == 0 ->
+  let price_usd_per_kwh := fst (fst (lcoe_spec c)) / 100 in
+  geo0 (/ (1 + l_disc c)) (map (fun e => e * (price_usd_per_kwh / 1000000)) (l_net c))
+  == (1 + l_inflc c) * l_ccap c + geo0 (/ (1 + l_disc c)) (repeat (l_coam c) (l_life c)).
+Proof. exact breakeven_std_electricity. Qed.
+Print Assumptions C01_breakeven_std.
+
+Theorem C01_breakeven_fcr : forall c : lc_in, l_econ c = 1%Z -> classify (l_enduse c) (l_plant c) = LElec ->
+  ~ sumQ (l_net c) == 0 -> ~ natQ (length (l_net c)) == 0 ->
+  let price_usd_per_kwh := fst (fst (lcoe_spec c)) / 100 in
+  avg (l_net c) * (price_usd_per_kwh / 1000000) == l_fcr c * (1 + l_inflc c) * l_ccap c + l_coam c.
+Proof. exact breakeven_fcr_electricity. Qed.
+Print Assumptions C01_breakeven_fcr.
+
 (* the reduced-fraction form executed by the correspondence computes the same values *)
 Theorem C01_executable_form : forall c : lc_in, wf_l c -> teq (lcoe_exec c) (lcoe_spec c).
 Proof. exact lcoe_exec_is_spec. Qed.
